@@ -42,6 +42,7 @@ class Ent:
         self.path, self.kind, self.mode, self.mtime, self.data = path, kind, mode, mtime, data
 
     def token(self):
+        """FSENTRY of the `pdshmodel pcp` protocol; kind `l` (symbolic link): data = the link's target string"""
         c = "-" if self.kind == "d" else "h" + (self.data.hex() if self.data else "")
         if self.kind == "f" and not self.data:
             c = "h"
@@ -55,11 +56,16 @@ def build_jail(root, ents):
         p = rb if e.path == b"" else rb + b"/" + e.path
         if e.kind == "d":
             os.makedirs(p, exist_ok=True)
+        elif e.kind == "l":
+            os.symlink(e.data, p)
         else:
             with open(p, "wb") as f:
                 f.write(e.data)
     for e in reversed(ents):
         p = rb if e.path == b"" else rb + b"/" + e.path
+        if e.kind == "l":
+            os.utime(p, (e.mtime, e.mtime), follow_symlinks=False)
+            continue
         os.chmod(p, e.mode)
         os.utime(p, (e.mtime, e.mtime))
 
@@ -81,6 +87,9 @@ def snapshot(root):
                 d = f.read()
             out[rel] = dict(kind="f", mode=st.st_mode & 0o7777, sec=st.st_mtime_ns // 10**9,
                             nsec=st.st_mtime_ns % 10**9, data=d)
+        elif stat.S_ISLNK(st.st_mode):
+            out[rel] = dict(kind="l", mode=0o777, sec=st.st_mtime_ns // 10**9, nsec=st.st_mtime_ns % 10**9,
+                            data=os.readlink(p))
         else:
             out[rel] = dict(kind="o", mode=st.st_mode & 0o7777, sec=0, nsec=0, data=None)
     add(rb, b"")
@@ -148,6 +157,54 @@ def canon_replies(raw):
 
 def fields(line):
     return dict(w.split("=", 1) for w in line.split() if "=" in w)
+
+
+def retry_timeouts(answers, timed_out, skipped, rerun):
+    """G2: a time-out alone is re-tried once before it is reported.  `answers` (a list, changed in place) holds one
+    answer per case; `timed_out(a)` / `skipped(a)` classify an answer (the harness answers `skipped` for the rest of a
+    batch after MAX_TIMEOUTS hanging cases); `rerun(indices)` runs those cases again -- fresh jail, fresh harness
+    process -- and returns their answers.  The timed-out cases are re-run one by one until one of them hangs AGAIN
+    (then the hang is real: the others keep their first answer); if none does, the time-outs were the machine's, and
+    the skipped cases are run after all.  Returns the number of cases re-tried."""
+    t = [i for i, a in enumerate(answers) if timed_out(a)]
+    n, confirmed = 0, False
+    for i in t:
+        (a,) = rerun([i])
+        n += 1
+        answers[i] = a
+        if timed_out(a):
+            confirmed = True
+            break
+    if t and not confirmed:
+        s = [i for i, a in enumerate(answers) if skipped(a)]
+        if s:
+            for i, a in zip(s, rerun(s)):
+                answers[i] = a
+    return n
+
+
+def static_objects(repo, scratch):
+    """compile pcp_server.c of the tree under test and list (a) the objects of static storage duration it defines
+    (nm types B b D d C: data, bss, common -- function-local statics appear as `name.N`), (b) the functions it calls.
+    Returns (sorted names of (a) without the `.N` suffix, sorted names of (b)) or None when it does not compile."""
+    import subprocess
+    obj = os.path.join(scratch, "pcp_server_nm.o")
+    # -fno-pie: constant tables of pointers stay in .rodata (with PIE they move to .data.rel.ro and would look writable)
+    p = subprocess.run(["gcc", "-c", "-w", "-O0", "-fno-pie", "-fno-pic", "-DHAVE_CONFIG_H", "-I" + repo, "-I" + repo + "/src/pdsh",
+                        "-I" + repo + "/src/common", os.path.join(repo, "src/pdsh/pcp_server.c"), "-o", obj],
+                       stdout=subprocess.PIPE, stderr=subprocess.PIPE)
+    if p.returncode != 0:
+        return None
+    out = subprocess.run(["nm", obj], stdout=subprocess.PIPE).stdout.decode()
+    os.unlink(obj)
+    defs, calls = set(), set()
+    for line in out.splitlines():
+        w = line.split()
+        if len(w) >= 2 and w[-2] in ("B", "b", "D", "d", "C", "c", "S", "s", "G", "g"):
+            defs.add(w[-1].split(".")[0])
+        elif len(w) == 2 and w[0] == "U":
+            calls.add(w[1])
+    return sorted(defs), sorted(calls)
 
 
 # branches of the receiver automaton (tags of Driver/PcpDrv.lean covRun) taken by the model runs of this check run
@@ -238,7 +295,7 @@ def changed_paths(before, snap, t0):
             ch.append(path)
         elif b.kind != r["kind"] or b.mode != r["mode"]:
             ch.append(path)
-        elif r["kind"] == "f" and (r["data"] != b.data or r["sec"] != b.mtime or r["nsec"] != 0):
+        elif r["kind"] in ("f", "l") and (r["data"] != b.data or r["sec"] != b.mtime or r["nsec"] != 0):
             ch.append(path)
         elif r["kind"] == "d" and (r["sec"] != b.mtime or r["nsec"] != 0) and r["sec"] < t0 - 2:
             ch.append(path)
